@@ -782,13 +782,19 @@ def r15(repo, rep):
         fnode = g
     else:
         fnode = f.node
+    inner = None
     for c in walk_function(fnode):
         st = c.stmt
         if isinstance(st, ast.AugAssign) and _k(st.target) == "Pnk[k1][k2]" and isinstance(st.op, ast.Add) and \
                 _k(st.value) in ("1.0/(k1*Nk[k1])", "1/(k1*Nk[k1])", "1./(k1*Nk[k1])"):
             ok = len(c.loops) == 2
+            inner = c.loops[-1]
     env = {_k(s.targets[0]): _k(s.value) for s in ast.walk(fnode) if isinstance(s, ast.Assign)}
-    ok = ok and env.get("k1") == "G.degree(node)" and env.get("nbr_degrees") == "[G.degree(nbr)fornbrinG.neighbors(node)]" \
+    # k2 runs over the degrees of the neighbours of `node`: through a list of them, or directly in the neighbour loop
+    via_list = env.get("nbr_degrees") == "[G.degree(nbr)fornbrinG.neighbors(node)]" and inner is not None and _k(inner.iter) == "nbr_degrees"
+    direct = inner is not None and _k(inner.iter) == "G.neighbors(node)" and isinstance(inner.target, ast.Name) \
+        and env.get("k2") == "G.degree(%s)" % inner.target.id
+    ok = ok and env.get("k1") == "G.degree(node)" and (via_list or direct) \
         and env.get("Nk") == "Counter(dict(G.degree()).values())"
     rep.ob("R15", ok, "get_Pnk: each neighbour of each degree-k1 node adds 1/(k1*N_k1) to row k1 (rows sum to 1)", func=f, node=f.node,
            construct="get_Pnk body", detail="" if ok else "get_Pnk changed")
